@@ -758,6 +758,16 @@ def _form_programs() -> list:
     m2 = A.Macro("outer", ("$x",), (A.Op("before", (C("$x"),)), A.MacroCall("sub", (C("$x"), I(5))), A.Op("after")))
     for args in ((I(1), I(2)), (C("$G"), A.Str("s")), (A.PosMark("p", 0, 0, 1, 1), A.Dec("1.5"))):
         progs.append(A.Program((), (m1, A.Routine("def", id=0, body=(A.MacroCall("sub", args), A.Op("z"), A.MacroCall("sub", args))))))
+    # a macro WITHOUT parameters that contains jumps, expanded several times (directly and through another parameterless macro):
+    # every expansion needs its own ops and parameter lists
+    m0 = A.Macro("plain", (), (
+        A.If((A.IfBranch(False, (A.CondSpecial(False, "debug"),), (A.Op("p1"),)),), (A.Op("p2"),)),
+        A.Label("again"), A.Op("p3"), A.If((A.IfBranch(False, (A.CondOp(C("$V"), "==", I(1), False),), (A.Jump("again"),)),), None),
+        A.Switch(A.SwVar(C("$V")), (A.Case(A.CaseVal(I(1)), (A.Op("c1"), A.Ctrl("break"))), A.Case(None, (A.Op("c2"),)))),
+    ))  # fmt: skip
+    m0b = A.Macro("plain2", (), (A.MacroCall("plain", ()), A.Op("between"), A.MacroCall("plain", ())))
+    progs.append(A.Program((), (m0, A.Routine("def", id=0, body=(A.MacroCall("plain", ()), A.Op("z"), A.MacroCall("plain", ()))))))
+    progs.append(A.Program((), (m0, m0b, A.Routine("def", id=0, body=(A.MacroCall("plain2", ()), A.Op("z"))), A.Routine("def", id=1, body=(A.MacroCall("plain", ()),)))))
     progs.append(A.Program((), (m1, m2, A.Routine("def", id=0, body=(A.MacroCall("outer", (C("$Q"),)), A.Op("z"))))))
     progs.append(A.Program((), (A.Routine("def", id=0, body=(A.MacroCall("outer", (I(3),)), A.Ctrl("hold"))), m2, m1)))
     # routine kinds / aliases / coroutines / cross-routine jumps
